@@ -3,7 +3,13 @@ package main
 // One splitmix64 stream; every random choice of a run derives from it.
 type PRNG struct{ s uint64 }
 
-func NewPRNG(seed uint64) *PRNG { return &PRNG{s: seed*0x9E3779B97F4A7C15 + 0x1234567} }
+func NewPRNG(seed uint64) *PRNG {
+	// scramble the seed so that consecutive seeds give unrelated streams
+	z := (seed ^ 0xA5A5A5A5DEADBEEF) * 0xD6E8FEB86659FD93
+	z = (z ^ (z >> 32)) * 0xBF58476D1CE4E5B9
+	z ^= z >> 29
+	return &PRNG{s: z}
+}
 
 func (p *PRNG) U64() uint64 {
 	p.s += 0x9E3779B97F4A7C15
